@@ -187,30 +187,14 @@ def kv_of(fmd):
 
 
 def translate_kv(ctx):
-    """translators/kv2coq.py on the working tree's util.update_custom_metadata; the step / fold theorems of
-    coq/genproofs/GenKVProofs.v are re-proved on the regenerated text.  Fails closed: hand model update_kv + the
-    correspondence `update_kv ~ util.update_custom_metadata` + the oracle remain."""
-    import shutil
-    import subprocess
-    src = os.path.join(C.REPO, "fastparquet", "util.py")
-    p = subprocess.run([C.PY, os.path.join(C.VERIF, "translators", "kv2coq.py"), src], stdout=subprocess.PIPE, stderr=subprocess.PIPE)
-    if p.returncode != 0:
-        ctx.notes.append("translator_fallback: kv2coq refused the source (%s); hand model update_kv + correspondence used"
-                         % p.stderr.decode()[-300:].strip())
-        ctx.extra["translator_kv2coq"] = "translator_fallback"
-        return "fallback"
-    gen = os.path.join(ctx.gen_dir, "GenKV.v")
-    txt = p.stdout.decode()
-    if not os.path.exists(gen) or open(gen).read() != txt:
-        open(gen, "w").write(txt)
-    ok, out = C.coqc(gen, extra_q=[(ctx.gen_dir, "PqGen")])
-    ctx.obligation("GenKV.v (regenerated from util.update_custom_metadata) compiles", ok, out)
-    if ok:
-        gp = os.path.join(ctx.gen_dir, "GenKVProofs.v")
-        shutil.copy(os.path.join(C.COQ, "genproofs", "GenKVProofs.v"), gp)
-        ctx.coq_file(gp, extra_q=[(ctx.gen_dir, "PqGen")])
-    ctx.extra["translator_kv2coq"] = "translated"
-    return "translated"
+    """regenerated-text obligations of C16 (each translator fails closed on its own):
+    kv2coq      util.update_custom_metadata  -> GenKV.v, coq/genproofs/GenKVProofs.v (loop = faithful step; WHOLE function = update_kvo)
+    fileops2coq writer.update_file_custom_metadata -> GenUpdateFile.v, GenUpdateFileProofs.v (= rewrite_footer true at footer_loc)"""
+    from harness import gentr
+    fp = os.path.join(C.REPO, "fastparquet")
+    gentr.run_translator(ctx, "kv2coq", ["kv2coq.py", os.path.join(fp, "util.py")], "GenKV.v", "GenKVProofs.v", "util.update_custom_metadata")
+    gentr.run_translator(ctx, "fileops2coq_update_file", ["fileops2coq.py", "update_file", os.path.join(fp, "writer.py")],
+                         "GenUpdateFile.v", "GenUpdateFileProofs.v", "writer.update_file_custom_metadata")
 
 
 def run(ctx):
